@@ -223,6 +223,8 @@ def run(ctx):
     make_tree(os.path.join(pkg, ".hstatic"), TREE)
     make_special(os.path.join(pkg, ".hstatic"))
     make_tree(os.path.join(pkg, "hstatic"), {"a.txt": "SIBLING-A", "index.html": "SIBLING-INDEX", "secret.txt": "SIBLING-SECRET"})
+    if not os.path.islink(os.path.join(root, "current")):
+        os.symlink("static", os.path.join(root, "current"))
     sys.path.insert(0, root)
     audit = Audit(root)
     cwd0 = os.getcwd()
@@ -233,6 +235,7 @@ def run(ctx):
             "relative": (served, dict(directory="static")),
             "relative-dot": (served, dict(directory="./static/../static/")),
             "package": (os.path.join(pkg, "static"), dict(directory="static", package="pkgc07")),
+            "via-symlink": (os.path.join(root, "current"), dict(directory=os.path.join(root, "current"))),  # the configured directory is a symbolic link to the real one
             "package-dotdir": (os.path.join(pkg, ".hstatic"), dict(directory=".hstatic", package="pkgc07")),
         }
         # a custom not-found application configured (handle_404=...): everything else must behave as without it
